@@ -346,10 +346,15 @@ def head_env(self_obj, ts_obj, out_t, style="list"):
     return env
 
 
-def run_body(model, adaptive, stmts, decisions, env_override=None, ordering=None, _style=None):
+from ..interp import _Return  # noqa: E402
+
+
+def run_body(model, adaptive, stmts, decisions, env_override=None, ordering=None, _style=None, self_attrs=None):
     fi = _integrate(model)
     steps = []
     self_obj = make_self(model, adaptive, steps)
+    if self_attrs:
+        self_obj.attrs.update(self_attrs)
     ts_obj, out_t = make_ts()
     if _style is None:
         if not hasattr(model, "_output_style"):
@@ -375,10 +380,12 @@ def run_body(model, adaptive, stmts, decisions, env_override=None, ordering=None
         it.exec_block(stmts, env, fi)
     except SimRaise as e:
         errors.append(e)
+    except _Return as r:
+        env["@return"] = r.value
     return Path(list(hooks.seen), steps, env, errors, hooks.calls), hooks
 
 
-def enumerate_paths(model, adaptive, stmts):
+def enumerate_paths(model, adaptive, stmts, **kw):
     """All decision combinations of the undecidable tests met in one abstract run of `stmts`."""
     # discover the tests
     tests = []
@@ -391,7 +398,7 @@ def enumerate_paths(model, adaptive, stmts):
         if key in seen_combos:
             continue
         seen_combos.add(key)
-        p, hooks = run_body(model, adaptive, stmts, dec)
+        p, hooks = run_body(model, adaptive, stmts, dec, **kw)
         undecided = [t for t in hooks.unknown]
         if undecided:
             t = undecided[0]
